@@ -7,7 +7,8 @@ TOKENS = ["-b", "--b", "-b=true", "-b=false", "-b=", "-b=x", "-s", "-s=v", "--s=
           "-i=-5", "-u", "-u=1", "--", "-", "---s", "-=", "-=v", "--=v", "v", "true", "-5", "=", "", "-help", "--help=false",
           "-config=", "x=y", "s", "-s=-b", "--i=", "-b=1", "-config=cfg.json",
           "-B", "--B=true", "-S=v", "-I=7", "-HELP", "-Help=true",
-          "-i=010", "-i=0x1f", "-i=08", "-i=1_0", "-i=0b11", "-i=+4", "-i=0_7", "-i=_1"]
+          "-i=010", "-i=0x1f", "-i=08", "-i=1_0", "-i=0b11", "-i=+4", "-i=0_7", "-i=_1",
+          "-t", "-t=false", "false", "0"]
 
 
 def s(a):
@@ -29,13 +30,13 @@ def run(ctx):
     ctx.run([hb, "-maxlen", "3" if q else "4", "-extra", "3000" if q else "30000", "-tokens", ctx.path("tokens.ndjson"),
              "-out", ctx.path("cases.ndjson")], timeout=1200)
     rows = vlib.read_ndjson(ctx.path("cases.ndjson"))
-    slim = [{k: c[k] for k in ("v", "err", "panic", "b", "s", "i", "help", "rest")} for c in rows]
+    slim = [{k: c[k] for k in ("v", "err", "panic", "b", "t", "s", "i", "help", "rest")} for c in rows]
     bad, _, _ = judge(ctx, "config", "ArgParseCases", slim, per_shard=5000 if q else 140000, workers=1, timeout=1800,
                       extra_files={"cfgpath.ndjson": json.dumps(list(b"cfg.json")) + "\n"})
     for c in bad[:40]:
         v = [s(t) for t in c["v"]]
-        ctx.violation("argv=%r" % v, "Parse(%r): err=%s panic=%s b=%s s=%r i=%s help=%s rest=%r contradicts the documented grammar"
-                      % (v, c["err"], c["panic"], c["b"], s(c["s"]), c["i"], c["help"], [s(t) for t in c["rest"]]), c)
+        ctx.violation("argv=%r" % v, "Parse(%r): err=%s panic=%s b=%s t=%s s=%r i=%s help=%s rest=%r contradicts the documented grammar"
+                      % (v, c["err"], c["panic"], c["b"], c["t"], s(c["s"]), c["i"], c["help"], [s(t) for t in c["rest"]]), c)
     ctx.cov.update({
         "traces_validated_against_impl": len(rows), "evaluations": len(rows),
         "distinct_nontrivial": len({json.dumps(c["v"]) for c in rows if len(c["v"]) >= 2}),
